@@ -143,6 +143,7 @@ class Ctx(object):
         self.notes = {}               # free-form per-path data for harnesses
         self.maybe_infeasible = False
         self.frozen = False           # set when the path has ended: oracles may query but not fork
+        self.ended = False            # the harness function has returned (post-path oracle code is running)
         self.depth = 0                # interpreter call depth
 
     # -- fresh symbols (deterministic names so replayed prefixes line up) -----
@@ -277,7 +278,7 @@ class Ctx(object):
             if options[k] is not None:
                 self.pc.append(options[k])
             return k
-        if ex.shard is not None and len(self.prefix) == ex.split_depth - 1:
+        if ex.shard is not None and not self.ended and len(self.prefix) == ex.split_depth - 1:
             feasible = [k for k in feasible if _shard_of(self.prefix + [k], ex.shard[1]) == ex.shard[0]]
             if not feasible:
                 raise Pruned()
@@ -398,7 +399,8 @@ class Explorer(object):
                     raise
                 except HarnessError:
                     raise
-                except Exception as e:
+                except (Exception, SystemExit, KeyboardInterrupt) as e:
+                    # SystemExit / KeyboardInterrupt raised by the code under test are outcomes too
                     res = PathResult("raise", None, e, c)
             finally:
                 _CURRENT[0] = prev
@@ -410,6 +412,7 @@ class Explorer(object):
                 n += 1
                 STATS.paths += 1
             c.frozen = True
+            c.ended = True
             if res is None:
                 pass
             elif on_path is not None:
